@@ -20,6 +20,7 @@ theorem acceptId_of_notFree : ∀ (q : Q), notFree q = true → acceptId q = q
     simp only [notFree, Bool.and_eq_true] at h
     simp only [acceptId, acceptId_of_notFree a h.1, acceptId_of_notFree b h.2]
   | .const q _, h => by simp only [notFree] at h; simp only [acceptId, acceptId_of_notFree q h]
+  | .opq _ _, _ => rfl
 theorem acceptIdList_of_notFree : ∀ (qs : List Q), notFreeList qs = true → acceptIdList qs = qs
   | [], _ => rfl
   | q :: qs, h => by
@@ -57,6 +58,7 @@ theorem acceptId_sat (env : Env) : ∀ (q : Q), seqNotFree q = true → sat env 
     simp only [seqNotFree] at h
     funext d
     simp only [acceptId, sat, acceptId_sat env q h]
+  | .opq _ _, _ => rfl
 theorem acceptIdList_sat (env : Env) : ∀ (qs : List Q), seqNotFreeList qs = true →
     (acceptIdList qs).isEmpty = qs.isEmpty ∧ satAll env (acceptIdList qs) = satAll env qs
       ∧ satAny env (acceptIdList qs) = satAny env qs
@@ -134,6 +136,7 @@ theorem replace_absent_eq (fld : Field) (old new : Text) :
   | .const q _, h => by
     simp only [absent] at h
     simp only [replace, acceptId, replace_absent_eq fld old new q h]
+  | .opq _ _, _ => rfl
 theorem replaceList_absent_eq (fld : Field) (old new : Text) :
     ∀ (qs : List Q), absentList fld old qs = true → replaceList fld old new qs = acceptIdList qs
   | [], _ => rfl
